@@ -498,6 +498,15 @@ def corpus():
                 "shared": None, "knobs": {"batching": True, "chunk": None, "slab": 24, "budget": 100000000, "ioc": 1}, "op": 0})
     out.append({"W": 1, "ranks": [[["a", ["tensor", "int32", "contig", 16]], ["b", ["tensor", "float32", "contig", 5]], ["c", ["tensor", "int16", "contig", 2]]]],
                 "shared": None, "knobs": {"batching": True, "chunk": 32, "slab": 8, "budget": 40, "ioc": 1}, "op": 3})
+    # batching ON and a slab with exactly ONE member (a lone small tensor; a small tensor next to one that bypasses the batcher;
+    # a lone tensor next to primitives and an object): a shortcut for one-member slabs must still take the defensive copy
+    for op in (0, 1, 4):
+        out.append({"W": 1, "ranks": [[["only", ["tensor", "float32", "contig", 5]]]],
+                    "shared": None, "knobs": {"batching": True, "chunk": None, "slab": None, "budget": 100000000, "ioc": None}, "op": op})
+    out.append({"W": 1, "ranks": [[["big", ["tensor", "float32", "contig", 16]], ["s", ["tensor", "int64", "contig", 2]]]],
+                "shared": None, "knobs": {"batching": True, "chunk": None, "slab": 24, "budget": 100000000, "ioc": 1}, "op": 0})
+    out.append({"W": 1, "ranks": [[["p", ["prim", 3]], ["t", ["tensor", "int16", "contig", 7]], ["o", ["obj", "blob", 2]]]],
+                "shared": None, "knobs": {"batching": True, "chunk": None, "slab": None, "budget": 40, "ioc": 1}, "op": 2})
     return out
 
 
